@@ -116,6 +116,22 @@ def rule_r1(chk):
     ok = "register[name][t]iftisnotNoneelseFalse" in squash(g) and "forninnames" in squash(g)
     chk.ob("C07-R1", "plans.simulation_plans.SimulationPlan.get_register_as_bool_array", ok, "rows = names, columns = requested periods; periods outside the plan are False", m.loc(g))
 
+    # period membership: the plan covers start..end inclusive
+    from .. import fin
+    gp, isin = meths.get("_get_per_indexes"), meths.get("_is_per_in_span")
+    if gp is None or isin is None:
+        raise AnalysisError("anchor vanished: SimulationPlan._get_per_indexes/_is_per_in_span")
+    chk.saw(m, "SimulationPlan._get_per_indexes")
+    env = {"self.start": 10, "self.end": 14, "self.num_periods": 5}
+    try:
+        funcs = {"self._is_per_in_span": lambda t: fin.run_function(isin, {params(isin)[1]: t}, env=env)}
+        got = fin.run_function(gp, {params(gp)[1]: (8, 9, 10, 12, 14, 15, 16)}, funcs=funcs, env=env)
+        want = (None, None, 0, 2, 4, None, None)
+        chk.ob("C07-R1", "plans.simulation_plans.SimulationPlan._get_per_indexes[start..end inclusive]", tuple(got) == want,
+               f"plan 10..14, periods 8,9,10,12,14,15,16 -> columns {tuple(got)} (want {want})", m.loc(isin))
+    except fin.NotFinite as ex:
+        chk.undecided("C07-R1", "plans.simulation_plans.SimulationPlan._get_per_indexes[start..end inclusive]", f"not evaluable: {ex}", m.loc(gp))
+
 
 def rule_r2(chk):
     chk.rule("C07-R2", "stacked-time: wrt_spots = sorted((all - exogenized) | endogenized); unanticipated registers are looked up for the "
@@ -272,6 +288,18 @@ def rule_r3(chk):
     ok = h is not None and squash(h) == "_np.zeros((num_y,solution.num_w))"
     chk.ob("C07-R3", "fords.simulators._generate_period_system[no measurement noise on targets]", ok if h is not None else None,
            "targets are observed without measurement error (H = 0), so the smoother hits them exactly", m.loc(f))
+
+    # one period window: arrays are built, filled by the helpers and cropped along the same columns
+    sc = m.func("_simulate_conditional")
+    chk.saw(m, "_simulate_conditional")
+    uses = {}
+    for n in walk_no_nested(sc):
+        if isinstance(n, ast.Attribute) and isinstance(n.value, ast.Name) and n.value.id == "frame" and n.attr.endswith("slice"):
+            uses.setdefault(n.attr, []).append(n.lineno)
+    ok = len(uses) == 1 if uses else None
+    chk.ob("C07-R3", "fords.simulators._simulate_conditional[one period window]", ok,
+           f"frame windows used for building, filling and cropping the conditioning arrays: { {k: len(v) for k, v in uses.items()} } "
+           "(targets written outside the cropped window are lost; a narrower window leaves targets unread)", m.loc(sc))
 
 
 def run(chk):
